@@ -457,7 +457,8 @@ with arr_loop (fuel : nat) (depth : nat) (s : str) (acc : list plist) {struct fu
       end
   end.
 
-Definition fuel_for (s : str) : nat := S (S (length s)).
+(* enough for every input: see parse_never_out_of_fuel *)
+Definition fuel_for (s : str) : nat := S (S (2 * length s)).
 
 (* Plist::parse: what follows the value is ignored (the TODO in the source) *)
 Definition parse (s : str) : res plist :=
@@ -542,6 +543,17 @@ with skip_arr (fuel : nat) (depth : nat) (s : str) {struct fuel} : res str :=
               end
           end
       end
+  end.
+
+(* impl FromPlist for String / SmolStr: what the derived reader does for a field such as
+   RawGlyph.unicode : Option<String> *)
+Definition read_string_field (s : str) : res (str * str) :=
+  match lex s with
+  | Ok (TAtom a, r) => Ok (a, r)
+  | Ok (TString a, r) => Ok (a, r)
+  | Ok _ => Err                                        (* ExpectedString *)
+  | Err => Err
+  | OutOfFuel => OutOfFuel
   end.
 
 (* -------------------------------------------------- concrete syntax = value + formatting *)
@@ -771,6 +783,16 @@ Definition layout_key (phi : oracle) (p : list nat) (k : str) : ckey :=
    2 trailing comma, 3 white space before it, 4.. per character / byte / entry choices.
    Child j of a container lives at path (2j :: p); the entry / separator around it at (2j+1 :: p)
    with slots 0 kw, 1 key quoting, 2 ew, 3 sw, 4.. key characters. *)
+Section Mapi.
+  Variables (A B : Type) (f : nat -> A -> B).
+  Fixpoint mapi_from (j : nat) (l : list A) : list B :=
+    match l with
+    | [] => []
+    | x :: r => f j x :: mapi_from (S j) r
+    end.
+End Mapi.
+Arguments mapi_from {A B} f j l.
+
 Fixpoint layout (phi : oracle) (p : list nat) (v : plist) {struct v} : cst :=
   let w := ws_of (phi p 0%nat) in
   match v with
@@ -779,30 +801,21 @@ Fixpoint layout (phi : oracle) (p : list nat) (v : plist) {struct v} : cst :=
       if bare_ok s && N.odd (phi p 1%nat) then CAtom w s
       else CQuot w (style_chars (phi p) 4%nat s)
   | PData b =>
-      CData w ((fix go (i : nat) (b : list N) : list (N * bool * bool) :=
-                  match b with
-                  | [] => []
-                  | x :: r => (x, N.odd (phi p i), N.odd (phi p i / 2)) :: go (S i) r
-                  end) 4%nat b)
+      CData w (mapi_from (fun i x => (x, N.odd (phi p (4 + i)%nat), N.odd (phi p (4 + i)%nat / 2)))
+                         0%nat b)
   | PDict d =>
       let es :=
-        (fix go (j : nat) (d : list (str * plist)) : list (str * ckey * str * cst * str) :=
-           match d with
-           | [] => []
-           | (k, x) :: r =>
-               let q := (2 * j + 1)%nat :: p in
-               (ws_of (phi q 0%nat), layout_key phi q k, ws_of (phi q 2%nat),
-                layout phi ((2 * j)%nat :: p) x, ws_of (phi q 3%nat)) :: go (S j) r
-           end) 0%nat d in
+        mapi_from (fun j e =>
+                     let q := (2 * j + 1)%nat :: p in
+                     (ws_of (phi q 0%nat), layout_key phi q (fst e), ws_of (phi q 2%nat),
+                      layout phi ((2 * j)%nat :: p) (snd e), ws_of (phi q 3%nat)))
+                  0%nat d in
       CDict w (entries_of_list (shuffle (fun i => phi p (4 + i)%nat) es)) (ws_of (phi p 1%nat))
   | PArr a =>
       let its :=
-        (fix go (j : nat) (a : list plist) : list (cst * str) :=
-           match a with
-           | [] => []
-           | x :: r =>
-               (layout phi ((2 * j)%nat :: p) x, ws_of (phi ((2 * j + 1)%nat :: p) 0%nat)) :: go (S j) r
-           end) 0%nat a in
+        mapi_from (fun j x => (layout phi ((2 * j)%nat :: p) x,
+                               ws_of (phi ((2 * j + 1)%nat :: p) 0%nat)))
+                  0%nat a in
       let tr := match a with
                 | [] => None
                 | _ :: _ => if N.odd (phi p 2%nat) then Some (ws_of (phi p 3%nat)) else None
@@ -828,22 +841,16 @@ Fixpoint wf (v : plist) : bool :=
   | PNum s => atom_ok s && atom_is_number s
   | PStr _ => true
   | PData b => forallb (fun x => x <? 256) b
-  | PDict d =>
-      keys_sorted d
-      && (fix go (d : list (str * plist)) : bool :=
-            match d with [] => true | (_, x) :: r => wf x && go r end) d
-  | PArr a => (fix go (a : list plist) : bool :=
-                 match a with [] => true | x :: r => wf x && go r end) a
+  | PDict d => keys_sorted d && forallb (fun e => wf (snd e)) d
+  | PArr a => forallb wf a
   end.
 
 Fixpoint vheight (v : plist) : nat :=
   match v with
-  | PDict d => S ((fix go (d : list (str * plist)) : nat :=
-                     match d with [] => 0 | (_, x) :: r => Nat.max (vheight x) (go r) end) d)
-  | PArr a => S ((fix go (a : list plist) : nat :=
-                    match a with [] => 0 | x :: r => Nat.max (vheight x) (go r) end) a)
-  | _ => 1
-  end%nat.
+  | PDict d => S (fold_right (fun e m => Nat.max (vheight (snd e)) m) 0%nat d)
+  | PArr a => S (fold_right (fun x m => Nat.max (vheight x) m) 0%nat a)
+  | _ => 1%nat
+  end.
 
 (* ---------------------------------------------------- tie: the value the real code returned *)
 Inductive rfloat : Type :=
@@ -1159,6 +1166,34 @@ Section EntryPoints.
     run create_source (options_of_args a).
 End EntryPoints.
 
+(* tie helpers: compare with the Options the real binary logged and the Input it built *)
+Definition flags_eqb (a b : flags) : bool :=
+  Bool.eqb (f_prefer_simple a) (f_prefer_simple b) && Bool.eqb (f_flatten a) (f_flatten b)
+  && Bool.eqb (f_erase_open_corners a) (f_erase_open_corners b)
+  && Bool.eqb (f_propagate_anchors a) (f_propagate_anchors b)
+  && Bool.eqb (f_decompose_transformed a) (f_decompose_transformed b)
+  && Bool.eqb (f_decompose a) (f_decompose b) && Bool.eqb (f_keep_direction a) (f_keep_direction b)
+  && Bool.eqb (f_production_names a) (f_production_names b).
+
+Definition options_agree (o : options) (fl dis : flags) (skip debg : bool) (out : option str) : bool :=
+  flags_eqb (o_flags o) fl && flags_eqb (o_flags_to_disable o) dis
+  && Bool.eqb (o_skip_features o) skip && Bool.eqb (o_compile_debg o) debg
+  && match o_output_file o, out with
+     | Some a, Some b => str_eqb a b
+     | None, None => true
+     | _, _ => false
+     end.
+
+(* 0 = error, 1 = DesignSpacePath, 2 = GlyphsPath, 3 = FontraPath *)
+Definition input_code (k : option input_kind) : N :=
+  match k with
+  | None => 0
+  | Some DesignSpacePath => 1
+  | Some GlyphsPath => 2
+  | Some FontraPath => 3
+  | Some GlyphsMemory => 4
+  end.
+
 (* ------------------------------------------------------- lone UFO vs designspace *)
 (* plist::Dictionary of a lib: an association list read by key *)
 Definition lib := list (str * plist).
@@ -1173,28 +1208,6 @@ Fixpoint lib_get (k : str) (l : lib) : option plist :=
   match l with
   | [] => None
   | (k', v) :: t => if str_eqb k k' then Some v else lib_get k t
-  end.
-
-Fixpoint plist_eqb (a b : plist) {struct a} : bool :=
-  match a, b with
-  | PStr s, PStr s' => str_eqb s s'
-  | PNum s, PNum s' => str_eqb s s'
-  | PData s, PData s' => str_eqb s s'
-  | PArr x, PArr y =>
-      (fix go (x y : list plist) : bool :=
-         match x, y with
-         | [], [] => true
-         | p :: t, q :: t' => plist_eqb p q && go t t'
-         | _, _ => false
-         end) x y
-  | PDict x, PDict y =>
-      (fix go (x y : list (str * plist)) : bool :=
-         match x, y with
-         | [], [] => true
-         | (k, p) :: t, (k', q) :: t' => str_eqb k k' && plist_eqb p q && go t t'
-         | _, _ => false
-         end) x y
-  | _, _ => false
   end.
 
 (* merge_default_master_lib_into_designspace_lib (the early return on base == child gives the same
